@@ -60,8 +60,10 @@ def gen_sched_case(rng, quick):
         h = {"name": t.decode()}
         for key, s in (("out", "o"), ("err", "e")):
             if rng.random() < (0.9 if s == "o" else 0.6):
-                cls = rng.choices(["tiny", "small", "mid", "tailbuf"], [35, 35, 22, 8])[0]
+                cls = rng.choices(["tiny", "small", "mid", "tailbuf", "burst"], [32, 32, 20, 8, 8])[0]
                 payload, _ = relay.gen_stream(rng, cls, targets)
+                if cls == "burst" and payload.count(b"\n") > 320:
+                    payload = b"\n".join(payload.split(b"\n")[:320]) + b"\n"   # every line is a scheduling point
                 if rng.random() < 0.25:
                     # a line of 2048 bytes or more (err.c's LINEBUFSIZE), so that a label and its long line
                     # written apart can be told from one call
@@ -70,6 +72,8 @@ def gen_sched_case(rng, quick):
                     payload = payload[:budget_bytes]
                 budget_bytes -= len(payload)
                 style = rng.choice(["whole", "newline", "newline", "around", "small", "random", "random"])
+                if cls == "burst":
+                    style = rng.choice(["whole", "around", "random"])      # many lines per read
                 if style == "small" and len(payload) > 400:
                     style = "random"
                 chunks = cap_chunks(relay.chunkings(rng, payload, style))
